@@ -170,11 +170,25 @@ fn find_entry_clause(ctx: &mut Ctx, f: &Foreign, rng: &mut Rng) {
 
 fn one_foreign(ctx: &mut Ctx, i: u64) {
     let mut rng = ctx.rng("c03", i);
-    let codec = R::CODECS[(i % 4) as usize];
+    let mut codec = R::CODECS[(i % 4) as usize];
+    if i % 64 == 21 || i % 64 == 53 {
+        codec = R::C_GZIP;
+    }
     let mut o = gen::gen_foreign_opts(&mut rng, codec, ctx.n(1500, 6000) as usize);
     if i % 8 == 5 {
         o.depth = 3;
         o.n_entries = o.n_entries.max(200);
+    }
+    if i % 64 == 21 || i % 64 == 53 {
+        // gzip leaves longer than one 32 KiB read chunk whose length is 32768*k + 4 (only trailer bytes lie behind the
+        // chunk boundary), each followed directly by the next leaf
+        o.codec = R::C_GZIP;
+        o.depth = 2;
+        o.n_entries = 30_000;
+        o.leaf_entries = Some(14_000);
+        o.align_gzip_leaves = true;
+        o.gaps = false;
+        o.offset_style = 2; // shuffled offsets: high-entropy offset column
     }
     let f = gen::gen_foreign(&mut rng, &o);
     // the generator's output must be spec-valid and the reference must agree with the ground truth
@@ -192,6 +206,15 @@ fn one_foreign(ctx: &mut Ctx, i: u64) {
     let mat = json!({"layout": f.layout, "entries": f.entries.len(), "tiles": f.truth.len(), "leaves": f.n_leaves, "file_bytes": f.bytes.len()});
     ctx.case(hash_bytes(&f.bytes), f.entries.len() >= 2);
     ctx.count(&format!("depth.{}", f.depth.min(4)));
+    if o.align_gzip_leaves {
+        let aligned = R::walk(&f.bytes, &R::WalkLimits::default(), false)
+            .map(|(_, w)| w.pointers.iter().filter(|(_, p)| p.length > 32_768 && p.length % 32_768 == 4).count())
+            .unwrap_or(0);
+        ctx.add("gzip_leaves_aligned_to_chunk_boundary", aligned as u64);
+    }
+    if o.prefix_entries {
+        ctx.count("layouts_with_prefix_sharing_entries");
+    }
     ctx.count(&format!("codec.{}", R::codec_name(codec)));
     if o.permute_sections {
         ctx.count("layouts_with_permuted_sections");
